@@ -14,8 +14,9 @@ import sys
 import tempfile
 
 VERIF = os.path.dirname(os.path.dirname(os.path.abspath(__file__)))
+REPLAY_DIR = os.environ.get("VERIF_REPLAY_DIR") or os.path.join(VERIF, "replays")
 REPO = os.path.abspath(os.environ.get("VERIF_REPO", "/repo"))
-HARNESS_HASHSEED = "0"
+HARNESS_HASHSEED = os.environ.get("VERIF_HARNESS_HASHSEED", "0")   # override only for the determinism self-test
 ORACLE_HASHSEEDS = ("77", "4242")
 GUARD = "SELFIES_VERIF"
 
